@@ -468,9 +468,16 @@ func typeOfJSONValue(v any) ExprType {
 		return &ArrayType{Elem: elem}
 	case map[string]any:
 		props := make(map[string]ExprType, len(v))
-		for k, v := range v {
+		// Keys which are different only in upper/lower case fall into the same property. Iterate them
+		// in sorted order so that which one is chosen does not depend on the iteration order of the map
+		keys := make([]string, 0, len(v))
+		for k := range v {
+			keys = append(keys, k)
+		}
+		sort.Strings(keys)
+		for _, k := range keys {
 			// Property names are case insensitive. Property accesses are checked in lower case.
-			props[strings.ToLower(k)] = typeOfJSONValue(v)
+			props[strings.ToLower(k)] = typeOfJSONValue(v[k])
 		}
 		return NewStrictObjectType(props)
 	case nil:
